@@ -25,12 +25,13 @@ def pcOpOk : Pc → Op → Bool
   | .sRmChk _, c | .sRmWait _, c => isStop c
   | .cWant k, c | .cLocked k, c | .cAll k, c | .cRet k, c => if k then isStop c else decide (c = .stop)
   | .rsWant, c | .rsLocked, c | .rsRelock, c | .rsRet _, c => decide (c = .stop)
+  | .postS _, c => decide (c = .swait true)
 
 /-- What the history flag `poppedOp` must be at each program counter. -/
 def poppedOk : Pc → Bool → Bool
   | .locked, b | .released, b | .enq _, b | .sChk1, b => !b
   | .unl _ p, b | .susp p, b | .slp p, b | .wokeNL _ p, b | .relk _ p, b => p == b
-  | .post still, b | .relockU still, b => (!still) == b
+  | .post still, b | .relockU still, b | .postS still, b => (!still) == b
   | _, _ => true
 
 /-- Program counters that cannot occur as long as no timed wait was ever enqueued: timed
@@ -69,6 +70,14 @@ theorem inv2_init (n : Nat) (f : Bool) : Inv2 (init n f) := by
 
 attribute [local grind] holds holdsU noU inQ waitExp needTok setPopped b2n isTimed isPred isWait
   isNotify pcOpOk poppedOk badU isStop dtorRes pfPc exitPc
+
+theorem isStop_facts {c : Op} (h : isStop c = true) :
+    isWait c = true ∧ isPred c = true ∧ isNotify c = false ∧ c = .swait (isTimed c) := by
+  cases c <;> simp [isStop] at h <;> simp [isWait, isPred, isTimed, isNotify]
+
+attribute [local grind →] isStop_facts
+
+set_option maxHeartbeats 1600000
 
 set_option hygiene false in
 macro "cv_step2" : tactic => `(tactic| (
@@ -194,7 +203,6 @@ theorem popCore_inv2 (s s' : St) (t z g : Nat) (d : Bool) (pcT : Pc) (hi : Inv2 
       · subst hug; simp [upd, hut, f8] at hu
       · simp [upd, hut, hug] at hu; exact h8 u hp hu
 
-set_option maxHeartbeats 1600000 in
 theorem step_inv2_inv (s s' : St) (t : Nat) (o : Op) (hA : Inv s) (hi : Inv2 s) (h : step s (.inv t o) = some s') : Inv2 s' := by
   have hu := hA.uHolder
   have hn := hA.uNot
@@ -277,6 +285,10 @@ theorem step_inv2_stop0 (s s' : St) (t : Nat) (v : Bool) (hA : Inv s) (hi : Inv2
   have hn := hA.uNot
   cv_step2
 theorem step_inv2_stop1 (s s' : St) (t : Nat) (v : Bool) (hA : Inv s) (hi : Inv2 s) (h : step s (.stop1 t v) = some s') : Inv2 s' := by
+  have hu := hA.uHolder
+  have hn := hA.uNot
+  cv_step2
+theorem step_inv2_stop2 (s s' : St) (t : Nat) (v : Bool) (hA : Inv s) (hi : Inv2 s) (h : step s (.stop2 t v) = some s') : Inv2 s' := by
   have hu := hA.uHolder
   have hn := hA.uNot
   cv_step2
@@ -378,6 +390,7 @@ theorem step_inv2 (s s' : St) (e : Ev) (hA : Inv s) (hi : Inv2 s) (h : step s e 
   | popAll t z g d => exact step_inv2_popAll s s' t z g d hA hi h
   | stop0 t v => exact step_inv2_stop0 s s' t v hA hi h
   | stop1 t v => exact step_inv2_stop1 s s' t v hA hi h
+  | stop2 t v => exact step_inv2_stop2 s s' t v hA hi h
   | stSeen t => exact step_inv2_stSeen s s' t hA hi h
   | stAcq t m => exact step_inv2_stAcq s s' t m hA hi h
   | stPush t b => exact step_inv2_stPush s s' t b hA hi h
